@@ -41,6 +41,10 @@ func runC09(r *Report, tier string) {
 	// the message it decoded)
 	r.rule("R02.4", "(shared with C02) Headers.RawProtected / RawUnprotected of a value reached through a pointer, or of a local that is returned by address, are written only in the decoder family.")
 	checkRawBucketWriters(r, "R02.4")
+	// the heads the encoders always emit in shortest form (tag, outer array)
+	// are shortest-form on every accepted input
+	r.rule("R05.3", "(shared with C05) each structure decoder's success implies the exact prefix head(tag) || 0x80+n of its kind.")
+	checkStructurePrefixes(r, "R05.3")
 }
 
 // checkSignMessageOrder: the COSE_Sign encoder appends the encoding of
